@@ -131,7 +131,8 @@ structure World where
 
 /-- a presence message published through the hub to the sessions attached to a topic (presSubsOnline) -/
 structure PresMsg where
-  what : String
+  what : String                   -- the status or the kind of news: on, off, ?unkn, ?none, gone, acs, msg, read, recv, upd, del, ua
+  cmd : String := ""              -- the command which travels with a status ("what+cmd" on the wire): en, dis, rem
   src : String := ""
   extra : String := ""            -- rendered seq/clear/dacs/tgt/act part
   filterIn : Mode := 0
